@@ -11,11 +11,11 @@ void __real_free(void *);
 char *__real_strdup(const char *);
 int __real_vasprintf(char **, const char *, va_list);
 
-#define TCAP (1u << 20)
+#define TCAP (1u << 23)	/* (a 1000 x 2 U16 calibration is two million blocks; the table must never fill: open addressing) */
 /* pointers are stored scrambled so that LeakSanitizer does not see this table as a reference */
 #define SCR(p) ((void *)((uintptr_t)(p) ^ (uintptr_t)0x5a5a5a5a5a5a5a5aULL))
 static struct { void *p; size_t n; } tab[TCAP];
-static long live_count, live_bytes;
+static long live_count, live_bytes, used_slots;
 
 static unsigned hashp(void *p) { return (unsigned)(((uintptr_t)p >> 4) * 2654435761u) & (TCAP - 1); }
 
@@ -23,7 +23,12 @@ static void track(void *p, size_t n)
 {
     unsigned h;
     if (p == NULL) return;
+    if (live_count >= (long)(TCAP / 4 * 3)) {		/* cannot happen within the 1 GiB the sanitizer run time allows; never spin */
+	fprintf(stderr, "vh: allocation table full\n");
+	abort();
+    }
     for (h = hashp(p); tab[h].p != NULL && tab[h].p != (void *)1; h = (h + 1) & (TCAP - 1)) {}
+    if (tab[h].p == NULL) ++used_slots;
     tab[h].p = SCR(p); tab[h].n = n;
     ++live_count; live_bytes += n;
 }
@@ -32,10 +37,15 @@ static bool untrack(void *p)
 {
     unsigned h;
     if (p == NULL) return false;
-    for (h = hashp(p); tab[h].p != NULL; h = (h + 1) & (TCAP - 1)) {
+    unsigned probes = 0;
+    for (h = hashp(p); tab[h].p != NULL && probes < TCAP; h = (h + 1) & (TCAP - 1), ++probes) {
 	if (tab[h].p == SCR(p)) {
 	    tab[h].p = (void *)1;	/* tombstone */
 	    --live_count; live_bytes -= tab[h].n;
+	    if (live_count == 0 && used_slots > (long)(TCAP / 8)) {	/* nothing live: drop the tombstones of a long history */
+		memset(tab, 0, sizeof(tab));
+		used_slots = 0;
+	    }
 	    return true;
 	}
     }
